@@ -8,7 +8,8 @@ prop, label, what, lit = sys.argv[1:5]
 mod = importlib.import_module('props.' + prop.lower())
 history = ast.literal_eval(lit)
 oids = wire.Oids()
-py = histcheck.run_history(history, oids, getattr(mod, 'server_version', '5.0.5'), getattr(mod, 'probe', None))
+py = histcheck.run_history(history, oids, getattr(mod, 'server_version', '5.0.5'), getattr(mod, 'probe', None),
+                           getattr(mod, 'pre_probe', None))
 fails = mod.oracle(history, py)
 assert any(l == label for (_, l, _) in fails), fails
 print('oracle reports:', fails)
